@@ -200,6 +200,10 @@ def p_ensure_import(I, args, kwargs, node):
             ext = pack(I.ctx, "external" if names.ety == STR else SV(z3.StringVal("external"), STR), names.ety)
             hrn = pack(I.ctx, "HasRepr" if names.ety == STR else SV(z3.StringVal("HasRepr"), STR), names.ety)
             goal = z3.ForAll([i], z3.Implies(z3.And(0 <= i, i < names.nz()), z3.Or(z3.And(e == ext, used_nonempty), z3.And(e == hrn, hr_t))))
+    if isinstance(imports, _PD) and list(imports.d) == ["inline_snapshot"] and isinstance(imports.d["inline_snapshot"], PyList):
+        nm = imports.d["inline_snapshot"].items
+        I.ghost["ensured_ext"] = "external" in nm
+        I.ghost["ensured_hr"] = "HasRepr" in nm
     if goal is None:
         goal = z3.Bool(I.ctx.fresh_name("imports_match_this_file"))  # shape not understood: cannot be shown
     I.oblige("call-pre", f"ensure_import.only-names-this-file-needs(O7)@{getattr(node, 'lineno', '?')} [C03]", goal)
@@ -299,7 +303,7 @@ D_POL = {
     "Confirm.ask": p_confirm_ask,
 }
 
-GHOST0 = {"used_last": "=None", "hasrepr_used": "=False", "n_enter": "=0", "n_leave": "=0", "n_fix_all": "=0", "n_persist": "=0", "n_remove": "=0", "n_suspend": "=0", "n_resume": "=0"}
+GHOST0 = {"used_last": "=None", "hasrepr_used": "=False", "ensured_ext": "=False", "ensured_hr": "=False", "n_enter": "=0", "n_leave": "=0", "n_fix_all": "=0", "n_persist": "=0", "n_remove": "=0", "n_suspend": "=0", "n_resume": "=0"}
 
 EXIT_CLAUSES = {
     # C15: "state always popped" -- on every path, normal or exceptional
@@ -335,7 +339,10 @@ contract(
         }),
         4: Loop(index="bf", ghost_modifies=[], inv={"trivial": "True"}),
         5: Loop(index="pf", ghost_modifies=[], inv={"trivial": "True"}),
-        6: Loop(index="f", ghost_modifies=["n_persist"], inv={"trivial": "True"}),
+        6: Loop(index="f", ghost_modifies=["n_persist"], inv={"trivial": "True"},
+                iter_init={"ensured_ext": False, "ensured_hr": False},
+                # C03/C09/C01: whatever category introduced the name, the rewritten file imports what its new code uses
+                iter_post={"imports-what-the-new-code-needs(O7) [C03,C09,C01]": "implies(len(used_last) > 0, ensured_ext) and implies(hasrepr_used, ensured_hr)"}),
         7: Loop(index="e", ghost_modifies=["n_persist"], inv={"trivial": "True"}),
         8: Loop(index="u", ghost_modifies=["n_remove"], inv={"removal-only-under-approved-trim": "implies(not approved('trim'), n_remove == 0)"}),
     },
